@@ -267,14 +267,16 @@ pub fn cache_files(disk : &Disk) -> Vec<(String, Vec<u8>)>
 
 impl World
 {
-    /*  True while the directory of some target (or of ruler's own directory) does not exist: commands cannot write
-        there and ruler cannot move files there, which the reference model does not describe.  Invocations made in such
+    /*  True while the directory of some target (or of ruler's own directory) does not exist, or while some file cannot
+        be opened for reading: commands cannot write there and ruler cannot move files there resp. cannot hash the file,
+        which the reference model does not describe.  Invocations made in such
         a state are judged only for what holds regardless (termination, scope, nothing lost, cache names). */
     pub fn env_broken(&self) -> bool
     {
         let mut paths : Vec<String> = self.rules.iter().flat_map(|r| r.targets()).collect();
         paths.push(ruler_dir().to_string());
         paths.iter().any(|p| { let parent = crate::verif::vsys::parent_of(p); parent != "" && !self.sys.is_dir_now(&parent) })
+            || self.sys.any_unreadable()
     }
 
     pub fn new(seed : u64, clock : Clock, rules : Vec<GRule>) -> World
@@ -438,7 +440,22 @@ impl World
             let mut sources : Vec<String> = self.rules[index].sources.clone();
             sources.sort();
             sources.dedup();
-            if sources.len() != node.source_indices.len() { return None; }
+            if sources.len() != node.source_indices.len()
+            {
+                // the plan binds fewer (or more) sources than the rule declares: take the channels as the plan describes
+                // them, so that what travels on them is still checked
+                for si in node.source_indices.iter()
+                {
+                    let s = match si
+                    {
+                        crate::sort::SourceIndex::Leaf(k) => match pack.leaves.get(*k) { Some(l) => l.clone(), None => return None },
+                        crate::sort::SourceIndex::Pair(n, sub) => match pack.nodes.get(*n).and_then(|x| x.targets.get(*sub)) { Some(t) => t.clone(), None => return None },
+                    };
+                    let p = producer.get(&s).cloned();
+                    map.chans.push((s, p, index));
+                }
+                continue;
+            }
             for s in sources
             {
                 let p = producer.get(&s).cloned();
